@@ -128,47 +128,13 @@ theorem encode_all (ber : Bytes) : ∀ f : Nat,
           | true => simp at he; omega
           | false => simp at he; have := hS.2 rfl h2; omega
     · intro off ce ind d os e h
-      rw [readItems] at h
-      split at h
-      next hn =>
-        injection h with h; injection h with h1 h2; subst h1; subst h2
+      rcases readItems_ok_cases h with ⟨hos, he, _, _⟩ | ⟨o, e1, os1, ho, hi, hos, _, _⟩
+      · subst hos; subst he
         simp [encodeItems, nodesItems]
-      next hn =>
-        cases ho : readObject f ber off d with
-        | error e => rw [ho] at h; simp at h
-        | ok r =>
-          obtain ⟨o, e1⟩ := r
-          rw [ho] at h
-          have hO := ihO _ _ _ _ ho
-          dsimp only at h
-          cases ind with
-          | true =>
-            simp only [if_true] at h
-            split at h
-            · simp at h
-            · split at h
-              · injection h with h; injection h with h1 h2; subst h1; subst h2
-                simp only [encodeItems, nodesItems, List.length_append, List.length_nil]; omega
-              · cases hi : readItems f ber e1 ce true d with
-                | error e => rw [hi] at h; simp at h
-                | ok r =>
-                  obtain ⟨os1, e2⟩ := r
-                  rw [hi] at h
-                  injection h with h; injection h with h1 h2; subst h1; subst h2
-                  have hI := ihI _ _ _ _ _ _ hi
-                  simp only [encodeItems, nodesItems, List.length_append]; omega
-          | false =>
-            simp only [Bool.false_eq_true, if_false] at h
-            split at h
-            · simp at h
-            · cases hi : readItems f ber e1 ce false d with
-              | error e => rw [hi] at h; simp at h
-              | ok r =>
-                obtain ⟨os1, e2⟩ := r
-                rw [hi] at h
-                injection h with h; injection h with h1 h2; subst h1; subst h2
-                have hI := ihI _ _ _ _ _ _ hi
-                simp only [encodeItems, nodesItems, List.length_append]; omega
+      · subst hos
+        have hO := ihO _ _ _ _ ho
+        have hI := ihI _ _ _ _ _ _ hi
+        simp only [encodeItems, nodesItems, List.length_append]; omega
 
 /-- **Linear output, per object**: the re-encoding of an object read from the bytes `[off, off')` is at most
     `(off' - off) + 9 · nodes` bytes long. -/
